@@ -128,15 +128,17 @@ def domainHitsAt : Nat → Str → Bool
 
 def isBlankPy (s : Str) : Bool := s.all isSpace
 
+/-- `if aslist and not aslist[-1].strip(): aslist.pop()` -/
+def popWs (l : List Str) : List Str :=
+  match l.getLast? with
+  | some x => if isBlankPy x then l.dropLast else l
+  | none => l
+
 /-- the loop of `getaddrspec()` over the local part: `(pieces, rest, comments)` -/
 def addrSpecLoop : Nat → Str → List Str → List Str → List Str × Str × List Str
   | 0, s, cl, as => (as, s, cl)
   | _, [], cl, as => (as, [], cl)
   | fuel + 1, c :: rest, cl, as =>
-    let popWs (l : List Str) : List Str :=
-      match l.getLast? with
-      | some x => if isBlankPy x then l.dropLast else l
-      | none => l
     if c = '.' then
       let as := popWs as ++ [['.']]
       let g := gotoNext (rest.length + 1) rest cl
